@@ -143,7 +143,7 @@ L1 == Atoms \cup Ops(Atoms, Atoms)
 Small == {<<"lit", "a">>, <<"lit", "b">>, <<"any">>, <<"rep", <<"lit", "a">>, "*">>, <<"rep", <<"lit", "b">>, "?">>,
           <<"cat", <<"lit", "a">>, <<"lit", "b">>>>, <<"alt", <<"lit", "a">>, <<"lit", "b">>>>,
           <<"alt", <<"lit", "E">>, <<"lit", "a">>>>, <<"lit", "$">>}
-Regexes == IF Tier = "quick" THEN L1 \cup Ops(Small, Small) ELSE L1 \cup Ops(L1, L1)
+Regexes == IF Tier = "quick" THEN L1 \cup Ops(Small, Small) ELSE L1 \cup Ops(Small, L1) \cup Ops(L1, Small)
 
 GlobPatterns == SeqsUpTo(Sigma \cup {"?", "*"}, IF Tier = "quick" THEN 3 ELSE 4)
 CramAlpha    == {"a", "*", "?", "B"}
